@@ -38,6 +38,7 @@ def cases(max_depth):
         "mode": st.sampled_from(["clone", "clone", "clone", "export_leaf", "template"]),
         "node": st.integers(0, 40),
         "children": st.booleans(), "keep_id": st.booleans(),
+        "detach": st.sampled_from([False, False, False, True]),
         "edit_copy": st.booleans(),
         "unname": st.lists(st.integers(0, 40), min_size=0, max_size=2),
         "edits": st.lists(st.tuples(st.sampled_from(EDITS), st.integers(0, 30), st.integers(0, 5)).map(list),
@@ -58,7 +59,7 @@ def _path(o):
         return ""
 
 
-def apply_edit(root, edit):
+def apply_edit(root, edit, fails=None):
     op, a, b = edit
     objs = all_nodes(root)
     secs = [o for o in objs if snap.kind(o) == "sec"]
@@ -89,12 +90,20 @@ def apply_edit(root, edit):
                 if p.values:
                     p.insert(0, p.values[-1], strict=False)
             elif op == "values_list_mutation":
+                import copy as _copy
+                stored = _copy.deepcopy(list(p._values))
                 lst = p.values
                 if lst and isinstance(lst[0], list):
-                    lst[0].append("mutated-inner")
+                    lst[0][0] = "mutated-inner"
+                    lst[-1].append("mutated-inner")
                 lst.append("mutated")
                 lst[:1] = ["replaced"]
                 del lst[:]
+                if fails is not None and list(p._values) != stored:
+                    fails.append(failure("copy.values_list_aliased", "editing the list returned by .values "
+                                         "changed the Property itself (dtype %s): %r -> %r"
+                                         % (p.dtype, stored, list(p._values)),
+                                         tuple_dtype=str(p.dtype).endswith("-tuple")))
             elif op == "uncertainty":
                 p.uncertainty = 42.5
         elif op == "rename":
@@ -199,6 +208,7 @@ def body(case):
     classes = ["mode:" + mode, "root:" + k]
     tmpdir = None
     handler = None
+    origin = doc
     try:
         original_root = node
         if mode == "template":
@@ -223,6 +233,11 @@ def body(case):
         elif mode == "export_leaf":
             if k == "doc":
                 return False, classes + ["export:skipped"], []
+            if case.get("detach"):
+                # the chain of a detached object is the object alone
+                node.parent = None
+                origin = node
+                classes.append("export:detached_" + k)
             try:
                 copy = node.export_leaf()
             except Exception as exc:
@@ -284,7 +299,7 @@ def body(case):
                                          mode=mode, rootkind=k, root_id_reused=copy.id in reused))
         else:
             fails.extend(check_export_leaf(node, copy))
-        shared = identity_walk(copy, doc if mode != "template" else handler[url])
+        shared = identity_walk(copy, origin if mode != "template" else handler[url])
         if shared:
             fails.append(failure("copy.shared", "copy and original share %s" % shared[:3], mode=mode,
                                  what=shared[0].split(" of ")[0]))
@@ -292,13 +307,13 @@ def body(case):
             return True, classes, fails
 
         # phase 2: edits on one side must not show on the other
-        source_root = doc if mode != "template" else handler[url]
+        source_root = origin if mode != "template" else handler[url]
         edited, untouched = (copy, source_root) if case["edit_copy"] else (source_root, copy)
         universe = snap.reachable([untouched])
         before = snap.identity(universe)
         done = []
         for e in case["edits"]:
-            tag = apply_edit(edited, e)
+            tag = apply_edit(edited, e, fails)
             if tag:
                 done.append(tag)
         after = snap.identity(universe)
@@ -317,6 +332,21 @@ def body(case):
         if p.values != [1, 2, 3]:
             fails.append(failure("copy.values_arg_aliased", "editing the list passed as values= changed the "
                                  "Property: %r" % p.values))
+        for how in ("ctor", "setter", "extend"):
+            mine = [["1", "2"], ["3", "4"]]
+            if how == "ctor":
+                p = odml.Property(name="fresh", values=mine, dtype="2-tuple")
+            else:
+                p = odml.Property(name="fresh", dtype="2-tuple")
+                if how == "setter":
+                    p.values = mine
+                else:
+                    p.extend(mine)
+            mine[0][0] = "99"
+            mine[1].append("5")
+            if p.values != [["1", "2"], ["3", "4"]]:
+                fails.append(failure("copy.values_arg_aliased", "editing a tuple (list) passed in through %s "
+                                     "changed the Property: %r" % (how, p.values), how=how, tuple_dtype=True))
         classes.extend("edit:" + t for t in done)
         has_vals = any(snap.kind(o) == "prop" and o.values for o in snap.reachable([copy]))
         nt = has_vals and any(t in VALUE_EDITS for t in done) and any(t in STRUCT_EDITS for t in done)
@@ -331,9 +361,22 @@ def check_export_leaf(node, copy):
     # expected chain from the root down to the node's Section
     sec = node if snap.kind(node) == "sec" else node.parent
     if sec is None:
-        if copy is not node:
-            fails.append(failure("export.detached_property", "export_leaf of a detached Property should be the "
-                                 "Property itself"))
+        # the chain of a detached Property is the Property alone: a copy of it with the original id
+        if copy is node:
+            fails.append(failure("export.shared", "export_leaf of a detached Property returned the Property "
+                                 "itself, not a copy", detached_property=True))
+            return fails
+        if snap.kind(copy) != "prop" or copy.parent is not None:
+            fails.append(failure("export.chain", "export_leaf of a detached Property returned %r" % (copy,),
+                                 detached_property=True))
+            return fails
+        if copy.id != node.id:
+            fails.append(failure("export.ids", "detached Property: id %s, original %s" % (copy.id, node.id)))
+        a = snap.normalize(snap.content(node), ids=True)
+        b = snap.normalize(snap.content(copy), ids=True)
+        for path, key, x, y, kk in snap.diff(a, b, limit=2):
+            fails.append(failure("export.content", "detached Property %s: original %r, export %r" % (key, x, y),
+                                 attr=key))
         return fails
     chain = []
     cur = sec
